@@ -816,6 +816,51 @@ func q1LocalSlice(p *Prog, o *obls, cons *ssa.Function, qs queueSpec) {
 	if !cut {
 		bad = append(bad, "the queue is not cut with queue[1:] after taking its first element")
 	}
+	// the element written leaves the queue in the same iteration: the cut dominates the write, or no path from the
+	// write back to the head of the dequeue loop goes around a cut (a `continue` on a failed write would hand the same
+	// packet over again on the next round, and charge for it again)
+	isCut := func(in ssa.Instruction) bool {
+		sl, ok := in.(*ssa.Slice)
+		if !ok || sl.Low == nil || !isConstInt(sl.Low, 1) || sl.High != nil {
+			return false
+		}
+		_, isSlice := sl.X.Type().Underlying().(*types.Slice)
+		return isSlice
+	}
+	for _, w := range writes {
+		F := w.Parent()
+		var cuts []ssa.Instruction
+		instrsOf(F, func(in ssa.Instruction) {
+			if isCut(in) {
+				cuts = append(cuts, in)
+			}
+		})
+		if len(cuts) == 0 {
+			continue // the cut is in another function of the group: not judged here
+		}
+		dominated := false
+		for _, c := range cuts {
+			if instrDominates(c, w) {
+				dominated = true
+			}
+		}
+		if dominated {
+			continue
+		}
+		var inner map[*ssa.BasicBlock]bool
+		var hdr *ssa.BasicBlock
+		for h, body := range naturalLoops(F) {
+			if body[w.Block()] && (inner == nil || len(body) < len(inner)) {
+				inner, hdr = body, h
+			}
+		}
+		if hdr == nil {
+			continue
+		}
+		if pathAvoiding(w, hdr.Instrs[0], isCut) {
+			bad = append(bad, fmt.Sprintf("after the write at %s the loop can start its next round without the written element having been cut from the queue: the same packet is handed over (and charged) again", p.instrPos(w)))
+		}
+	}
 	if len(bad) > 0 {
 		o.bad("Q1", qs.typ, p.Pos(cons.Pos()), strings.Join(bad, "; "))
 	} else {
